@@ -132,7 +132,7 @@ impl Check for C15 {
             t = advance(&mut r, t);
             let clock = ClockScript::Frozen { t };
             if r.below(10) < cfg_rate {
-                match r.below(6) {
+                match r.below(8) {
                     0 | 1 => {
                         let (d, th) = *r.pick(&[(",", "."), (".", ","), (".", ""), (",", "")]);
                         dec = d.to_string();
@@ -144,7 +144,14 @@ impl Check for C15 {
                     2 => events.push(Event { actor: ADMIN, op: Op::Admin(AdminOp::SetNumberCfg { digits: r.below(10) as u8, remove_zero: r.chance(1, 2), rounding: r.chance(3, 4) }), clock }),
                     3 => events.push(Event { actor: ADMIN, op: Op::Admin(AdminOp::SetPercentCfg { digits: r.below(10) as u8, remove_zero: r.chance(1, 2), rounding: r.chance(3, 4) }), clock }),
                     4 => events.push(Event { actor: ADMIN, op: Op::Admin(AdminOp::SetMoneyCfg { remove_zero: r.chance(1, 2), rounding: r.chance(3, 4) }), clock }),
-                    _ => events.push(Event { actor: ADMIN, op: Op::Admin(AdminOp::SetTimezone { tz: sg.zone(&mut r).0 }), clock }),
+                    5 => events.push(Event { actor: ADMIN, op: Op::Admin(AdminOp::SetTimezone { tz: sg.zone(&mut r).0 }), clock }),
+                    _ => {
+                        // a rate update (by code, alias or symbol; now and then an unknown name): the rate is not
+                        // the subject here, but nothing about how amounts are printed or read may change
+                        let code = sg.rated_code(&mut r);
+                        let name = match r.below(5) { 0 => "nosuchcoin".to_string(), 1 => sg.currency_word(&mut r, &code), _ => code.to_lowercase() };
+                        events.push(Event { actor: ADMIN, op: Op::Admin(AdminOp::UpdateCurrency { name, rate: (1 + r.below(2_000_000)) as f64 / 1000.0 }), clock });
+                    }
                 }
                 continue;
             }
